@@ -3,11 +3,13 @@ from . import has_class
 CFG = {
     "harness": ["v1", "v2"],
     "pcheck": ["C07.run"],
+    "functional": ["C07.ops"],
     "required_classes": ["exhaustive", "random", "keyword-leaf", "digit-leaf", "punct-only-leaf", "nonident-char", "local-added",
                          "local-leaf-shared", "shared-leaf", "numbered-vs-local-leaf", "tracker-options", "name-with-path", "name-with-path-again", "invalid-type"],
     "nontrivial": lambda c: c["input"].count("<") > 3,
     "rule": "add-sequences over a path alphabet built to collide (keyword leaves, paths differing only in . - _, shared leaves at several depths, joined suffixes that coincide (a/b vs ab), digit-leading and punctuation-only elements, '~' and '+', the output package itself and packages sharing its leaf); after every AddSymbol the harness dumps LocalNameOf of every path of the case, PathOf of every alias and ImportLines; non-trivial = at least two adds; distinct = distinct (entry,input)",
     "exhaustive": ["all add-sequences of length <= 3 over a 12-path alphabet x output packages {'', local/out}, v1 and v2 (2 x 2 x 1884 sequences)"],
+    "modelled_general_ops": "AddSymbol with types.Name.Path set, AddType with IsInvalidType (namer/import_tracker.go, v2/namer/import_tracker.go): Model/Tracker.v add_op, invariant Inv2 over every operation sequence",
     "modelled": "DefaultImportTracker.AddSymbol/LocalNameOf/PathOf/ImportLines (namer/import_tracker.go, v2/namer/import_tracker.go), golangTrackerLocalName / goTrackerLocalName incl. importName and the numbered fallback (generator/import_tracker.go, v2/generator/import_tracker.go). sort.Strings is modelled by insertion sort (sorted permutations of distinct keys are unique). token.Lookup(..).IsKeyword by the keyword table. unicode.IsLetter/IsDigit, strconv.Itoa: theorem parameters constrained by their contracts.",
     "assumptions": ["types.Name.Path is empty (the tracker keys on Package)", "the output package is empty or a valid import path (filepath.Base = last element)"],
     "manifest": {
